@@ -114,6 +114,9 @@ enum DOp {
     Prune(u64),
     Query(u64),
     Wait(u64),
+    /// `wait_for_parent_ready` whose receiver is dropped at once (a block producer that gave up): the slot must
+    /// still become ready; the wake-up itself is unobservable
+    WaitDrop(u64),
 }
 
 /// direct driving of the real `ParentReadyTracker`
@@ -123,6 +126,8 @@ struct Direct {
     skip: BTreeSet<u64>,
     ann: AnnState,
     waiters: BTreeMap<u64, tokio::sync::oneshot::Receiver<alpenglow::BlockId>>,
+    /// slots whose registered receiver was dropped
+    dropped: BTreeSet<u64>,
     max_s: u64,
     dead: bool,
     class: u64,
@@ -134,7 +139,7 @@ impl Direct {
     fn new(max_s: u64) -> Self {
         let mut nf = BTreeSet::new();
         nf.insert((0, 0));
-        Self { t: VerifParentReadyTracker::default(), nf, skip: BTreeSet::new(), ann: AnnState::default(), waiters: BTreeMap::new(), max_s, dead: false, class: 0, incl_root: false }
+        Self { t: VerifParentReadyTracker::default(), nf, skip: BTreeSet::new(), ann: AnnState::default(), waiters: BTreeMap::new(), dropped: BTreeSet::new(), max_s, dead: false, class: 0, incl_root: false }
     }
     /// lowest window start the oracle speaks about
     fn lo(&self) -> u64 {
@@ -255,8 +260,9 @@ impl Direct {
                 let q: Vec<String> = self.t.parents_ready(Slot::new(*s)).iter().map(|b| fmt_blk(unbid(b))).collect();
                 rec.step(&format!("pq {s}"), &format!("q={}", fmt_list(q)));
             }
-            DOp::Wait(s) => {
-                let line = format!("pw {s}");
+            DOp::Wait(s) | DOp::WaitDrop(s) => {
+                let drop_rx = matches!(op, DOp::WaitDrop(_));
+                let line = format!("{} {s}", if drop_rx { "pwd" } else { "pw" });
                 let r = catch(|| self.t.wait_for_parent_ready(Slot::new(*s)));
                 match r {
                     Err(msg) => {
@@ -274,12 +280,13 @@ impl Direct {
                         }
                     }
                     Ok(e) => {
-                        self.waiters.insert(*s, e.right().unwrap());
+                        if drop_rx { drop(e.right().unwrap()); self.dropped.insert(*s); rec.count("pr:wait:dropped"); }
+                        else { self.waiters.insert(*s, e.right().unwrap()); }
                         rec.step(&line, &format!("waiting {}", self.dump()));
                         rec.count("pr:wait:waiting");
                         if *s >= lo {
                             rec.oracle(!before.iter().any(|a| a.0 == *s), "pr-wait-misses-ready-parent", || format!("{line}: waiting although ready: {before:?}"));
-                            self.ann.waiting.insert(*s);
+                            if !drop_rx { self.ann.waiting.insert(*s); }
                         }
                     }
                 }
@@ -458,8 +465,9 @@ fn main() {
                 8 => DOp::Query(W * rng.range(1, 4)),
                 9 => {
                     let s = W * rng.range(1, 4);
-                    if d.waiters.contains_key(&s) || d.ann.waiting.contains(&s) { continue; }
-                    DOp::Wait(s)
+                    if d.waiters.contains_key(&s) || d.ann.waiting.contains(&s) || d.dropped.contains(&s) { continue; }
+                    if d.t.states().iter().any(|e| e.0.inner() == s && e.4) { continue; }
+                    if rng.chance(1, 3) { DOp::WaitDrop(s) } else { DOp::Wait(s) }
                 }
                 10 => {
                     // prune at a certified, never-skipped slot (a finalized block's slot)
@@ -538,10 +546,11 @@ fn main() {
                 8 => d.apply(&mut rec, &DOp::Query(W * rng.range(0, 4)), false),
                 9 => {
                     let s = W * rng.range(1, 4);
-                    if d.waiters.contains_key(&s) || d.ann.waiting.contains(&s) { continue; }
+                    if d.waiters.contains_key(&s) || d.ann.waiting.contains(&s) || d.dropped.contains(&s) { continue; }
                     // a second waiter for a slot is an assertion failure of the code (documented): wait once per slot
                     if d.t.states().iter().any(|e| e.0.inner() == s && e.4) { continue; }
-                    d.apply(&mut rec, &DOp::Wait(s), false)
+                    let op = if rng.chance(1, 3) { DOp::WaitDrop(s) } else { DOp::Wait(s) };
+                    d.apply(&mut rec, &op, false)
                 }
                 10 | 11 => {
                     let r = rng.range(root, (root + 6).min(max_slot));
